@@ -265,6 +265,7 @@ func TestVerifRecorderText(t *testing.T) {
 type vIns struct {
 	effect bool
 	ok     bool
+	late   bool // error reply now, the write stays pending and is applied when the script says so (L:j)
 	code   codes.Code // status code of an injected failure
 }
 
@@ -299,6 +300,13 @@ type vSrvOp struct {
 	release chan vIns
 }
 
+// a proposal the service answered with an error status although it had accepted it
+type vLate struct {
+	pid     uint64
+	value   uint64
+	session *mr.Session
+}
+
 type vGate struct {
 	pid uint64
 	ch  chan struct{}
@@ -313,6 +321,7 @@ type vH struct {
 	reg         uint64
 	has         bool
 	failSession int32 // 0: no; 1+c: fail the next GetSession with status code c
+	late        []*vLate // writes answered with an error that may still be applied
 	hangSession int32 // 1: the next GetSession does not answer before its client has given up
 	drummer     *vDrummer
 	sessions    map[uint64]*vSession
@@ -480,11 +489,15 @@ func vPid(ctx context.Context) uint64 {
 
 func (s *vNodehost) GetSession(ctx context.Context, req *mr.SessionRequest) (*mr.Session, error) {
 	h := vCur.Load().(*vH)
+	pid := vPid(ctx)
+	h.logf("recv %d GetSession", pid)
 	if c := atomic.SwapInt32(&h.failSession, 0); c != 0 {
+		h.logf("reply %d GetSession err %s", pid, codes.Code(c-1))
 		return nil, status.Error(codes.Code(c-1), "injected session failure")
 	}
 	if atomic.SwapInt32(&h.hangSession, 0) == 1 {
 		<-ctx.Done()
+		h.logf("reply %d GetSession err %s", pid, codes.DeadlineExceeded)
 		return nil, status.Error(codes.DeadlineExceeded, "session request not answered in time")
 	}
 	// SyncGetSession: a fresh client id, registered with the state machine, ready for its first proposal
@@ -536,10 +549,17 @@ func (h *vH) applyWrite(cs *mr.Session, value uint64) (uint64, bool, bool) {
 	return 1, true, true
 }
 
+// every request the service receives is logged ("recv"), so is every error status it answers with
+// ("reply ... err"): what the service saw is compared with what the history says
 func (h *vH) hold(pid uint64, write bool, value uint64) vIns {
 	op := &vSrvOp{pid: pid, write: write, value: value, short: atomic.LoadInt32(&h.shortRound) == 1, release: make(chan vIns, 1)}
 	atomic.AddInt32(&h.handlers, 1)
 	h.mu.Lock()
+	if write {
+		h.log = append(h.log, fmt.Sprintf("%d recv %d Propose %d", h.nEvents(), pid, value))
+	} else {
+		h.log = append(h.log, fmt.Sprintf("%d recv %d Read", h.nEvents(), pid))
+	}
 	h.srv = append(h.srv, op)
 	h.mu.Unlock()
 	return <-op.release
@@ -573,12 +593,24 @@ func (s *vNodehost) Propose(ctx context.Context, req *mr.RaftProposal) (*mr.Raft
 		h.mu.Unlock()
 		result = r
 		if !accepted {
+			h.logf("reply %d Propose err %s", pid, codes.InvalidArgument)
 			return nil, status.Error(codes.InvalidArgument, "session rejected")
 		}
 	}
 	if ins.ok {
 		return &mr.RaftResponse{Result: result}, nil
 	}
+	if ins.late {
+		var cs *mr.Session
+		if req.Session != nil {
+			c := *req.Session
+			cs = &c
+		}
+		h.mu.Lock()
+		h.late = append(h.late, &vLate{pid: pid, value: value, session: cs})
+		h.mu.Unlock()
+	}
+	h.logf("reply %d Propose err %s", pid, ins.code)
 	return nil, status.Error(ins.code, "injected failure")
 }
 
@@ -601,6 +633,7 @@ func (s *vNodehost) Read(ctx context.Context, req *mr.RaftReadIndex) (*mr.RaftRe
 	if ins.ok {
 		return &mr.RaftResponse{Data: data}, nil
 	}
+	h.logf("reply %d Read err %s", pid, ins.code)
 	return nil, status.Error(ins.code, "injected failure")
 }
 
@@ -813,7 +846,7 @@ func (h *vH) run(cmds []string) {
 				continue
 			}
 			waiting := h.clientWaiting(op)
-			ins := vIns{effect: f[2] != "err", ok: f[2] == "ok", code: codes.Unavailable}
+			ins := vIns{effect: f[2] == "ok" || f[2] == "erreff", ok: f[2] == "ok", late: f[2] == "errlate", code: codes.Unavailable}
 			if len(f) > 3 {
 				ins.code = vCode(f[3])
 			}
@@ -821,10 +854,31 @@ func (h *vH) run(cmds []string) {
 			op.release <- ins
 			if waiting {
 				pid := op.pid
-				if !vWait(15*time.Second, func() bool { return h.atGate(pid) }) {
+				// the client records its completion / failure next; a client that sends the request again instead
+				// shows up at the service once more
+				if !vWait(15*time.Second, func() bool { return h.atGate(pid) || h.atServer(pid) }) {
 					h.logf("stuck-nogate %d", pid)
+				} else if !h.atGate(pid) {
+					h.logf("again %d", pid)
 				}
 			}
+		case "L": // L:j  the j-th write that was answered with an error although accepted (errlate) is applied now
+			j, _ := strconv.Atoi(f[1])
+			h.mu.Lock()
+			if len(h.late) > 0 {
+				j = j % len(h.late)
+				lw := h.late[j]
+				h.late = append(h.late[:j:j], h.late[j+1:]...)
+				_, applied, accepted := h.applyWrite(lw.session, lw.value)
+				if applied {
+					h.log = append(h.log, fmt.Sprintf("%d effect %d w %d", h.nEvents(), lw.pid, lw.value))
+				} else if accepted {
+					h.log = append(h.log, fmt.Sprintf("%d dedup %d w %d late", h.nEvents(), lw.pid, lw.value))
+				} else {
+					h.log = append(h.log, fmt.Sprintf("%d rejected %d w %d late", h.nEvents(), lw.pid, lw.value))
+				}
+			}
+			h.mu.Unlock()
 		case "T": // T:i  let the client of the i-th short-deadline op run into its deadline; the handler stays blocked
 			i, _ := strconv.Atoi(f[1])
 			var op *vSrvOp
@@ -969,7 +1023,8 @@ func TestVerifRecorderProto(t *testing.T) {
 				pid := p.id
 				p.recorder = &vRec{h: h, p: p}
 				p.pool.SetAddDialOptionsFunc(func(opts []grpc.DialOption) []grpc.DialOption {
-					return append(opts, grpc.WithUnaryInterceptor(vInterceptor(h, pid)))
+					// chained, i.e. INSIDE whatever interceptor the pool itself installs (WithUnaryInterceptor would replace it)
+					return append(opts, grpc.WithChainUnaryInterceptor(vInterceptor(h, pid)))
 				})
 			}
 			h.run(f[3:])
